@@ -2112,6 +2112,9 @@ class EEA:
         if t.kind == "none":
             self.obligations += 1
             return self._one(S.TE, self.site(fr, e, "call-none"), fr)
+        if t.kind == "noattr":
+            self.obligations += 1
+            return self._one(S.AE, self.site(fr, e, "no-attribute", f"{t.fullname.rsplit('.', 2)[-2]} has no attribute {t.fullname.rsplit('.', 1)[-1]}"), fr)
         if t.kind == "attr-callable":
             return self.attr_callable(t, e, st)
         if t.kind == "external":
